@@ -81,7 +81,9 @@ var textLabels = []string{"ALG", "Cty", "IO.CNCF.NOTARY.EXPIRY", "io.cncf.notary
 	// names of UNPROTECTED headers, used inside the protected header: extra headers like any other
 	"x5c", "io.cncf.notary.signingAgent", "io.cncf.notary.timestampSignature", "x5chain",
 	// header parameter names registered for JOSE that the envelope specification does not define
-	"kid", "typ", "jku", "jwk", "x5u", "x5t", "x5t#S256"}
+	"kid", "typ", "jku", "jwk", "x5u", "x5t", "x5t#S256",
+	// names that mean something to Go's struct tags, not to JSON
+	"-", "-,", "omitempty", "ExtendedAttributes"}
 var intLabels = []int64{4, 8, 10, 13, 14, 17, 100, 255, 256, 65536, 4294967296, 9223372036854775807, -1, -2, -24, -25, -70000, -4294967297, -9223372036854775808}
 
 type valuePair struct {
